@@ -8,3 +8,6 @@ func run(r *mon.Run) {
 	r.HookMissing("constant grafts (curve, scalar, lattice, elligator, field)")
 	apiLevel(r)
 }
+
+func tableSnapshot() interface{}        { return nil }
+func tableDiff(snap interface{}) string { return "" }
